@@ -48,8 +48,8 @@ type CallGraph struct {
 	succs map[interface{}][]interface{}
 }
 
-type elemNode struct{ t string }       // container element of a given (function) type
-type paramNode struct {                 // parameter i of fn
+type elemNode struct{ t string } // container element of a given (function) type
+type paramNode struct {          // parameter i of fn
 	fn *ssa.Function
 	i  int
 }
